@@ -14,17 +14,22 @@ TOOL = 3
 _INSTALLED = [None]
 
 
+_GLOBALS_OF = {}      # id(code) -> the globals dict of the function it belongs to
+
+
 def selfies_codes():
     codes, seen = [], set()
 
-    def collect(c):
+    def collect(c, g=None):
         if id(c) in seen:
             return
         seen.add(id(c))
         codes.append(c)
+        if g is not None:
+            _GLOBALS_OF[id(c)] = g
         for k in c.co_consts:
             if isinstance(k, types.CodeType):
-                collect(k)
+                collect(k, g)
 
     for name, m in list(sys.modules.items()):
         if m is None or not (name == "selfies" or name.startswith("selfies.")):
@@ -43,7 +48,7 @@ def selfies_codes():
             for f in fs:
                 f = getattr(f, "__wrapped__", f)
                 if isinstance(f, types.FunctionType) and f.__module__ and f.__module__.startswith("selfies"):
-                    collect(f.__code__)
+                    collect(f.__code__, f.__globals__)
     return codes
 
 
@@ -125,12 +130,106 @@ class Exec:
 
 
 _CUR = [None]
+_POINTS = [None]      # granularity "shared": the set of (code, line) that touch state shared between calls
 
 
 def _cb(code, *a):
     e = _CUR[0]
     if e is not None:
+        if _POINTS[0] is not None and (code, a[0]) not in _POINTS[0]:
+            return
         e.on_event()
+
+
+def shared_points():
+    """(code, line) pairs of selfies code that read or write state shared between calls: a partial-order reduction of the
+    LINE scheduler - a thread switch anywhere else commutes with the other thread's steps, so only these lines need to be
+    scheduling points.  Shared state = (a) a module global some function rebinds (STORE_GLOBAL), also when read through its
+    module (`mod.name`); (b) a module-level container that some selfies code mutates (subscript store / delete or a call of a
+    mutating method on the global, on the same line); (c) lru_cache wrappers, called by name or reached as a method /
+    property of a class; (d) a module-level instance of a user class; (e) a class-level container reached through an
+    instance.  Containers nobody mutates (the constant tables) are read-only and do not count.  The reduction is an
+    approximation (aliases of a global are not tracked); the unreduced LINE / INSTRUCTION scopes do not rely on it."""
+    import dis
+    import collections
+    codes = selfies_codes()
+    MUT = {"append", "add", "update", "pop", "clear", "setdefault", "extend", "discard", "remove", "insert", "popitem",
+           "appendleft", "popleft", "sort", "reverse", "__setitem__", "__delitem__", "cache_clear"}
+    rebound, mutated = set(), set()
+    for c in codes:
+        g = _GLOBALS_OF.get(id(c))
+        by_line = collections.defaultdict(list)
+        line = None
+        for ins in dis.get_instructions(c):
+            if ins.starts_line is not None:
+                line = ins.starts_line if not isinstance(ins.starts_line, bool) else ins.positions.lineno
+            by_line[line].append(ins)
+            if ins.opname in ("STORE_GLOBAL", "DELETE_GLOBAL"):
+                rebound.add((id(g), ins.argval))
+        for line, inss in by_line.items():
+            names = [i.argval for i in inss if i.opname in ("LOAD_GLOBAL", "LOAD_NAME")]
+            writes = any(i.opname in ("STORE_SUBSCR", "DELETE_SUBSCR") or
+                         (i.opname in ("LOAD_ATTR", "LOAD_METHOD") and i.argval in MUT) for i in inss)
+            if writes:
+                for nm in names:
+                    mutated.add((id(g), nm))
+    class_attrs = set()
+    for name, m in list(sys.modules.items()):
+        if m is None or not (name == "selfies" or name.startswith("selfies.")):
+            continue
+        for v in list(vars(m).values()):
+            if isinstance(v, type) and getattr(v, "__module__", "").startswith("selfies"):
+                for an, av in vars(v).items():
+                    if isinstance(av, (dict, list, set, bytearray, collections.deque)):
+                        class_attrs.add(an)
+                    f = av.fget if isinstance(av, property) else av
+                    if hasattr(f, "cache_info"):
+                        class_attrs.add(an)
+
+    def shared_value(g, nm):
+        if (id(g), nm) in rebound:
+            return True
+        if nm not in g:
+            return False
+        v = g[nm]
+        if hasattr(v, "cache_info"):
+            return True
+        if isinstance(v, (dict, list, set, bytearray, collections.deque)):
+            return (id(g), nm) in mutated
+        if isinstance(v, (types.ModuleType, types.FunctionType, types.BuiltinFunctionType, type, int, float, str, bytes, tuple,
+                          frozenset, bool, type(None), __import__("re").Pattern)):
+            return False
+        return hasattr(v, "__dict__")          # an instance of some class kept at module level
+
+    pts = set()
+    for c in codes:
+        g = _GLOBALS_OF.get(id(c))
+        line = None
+        prev_mod = None
+        for ins in dis.get_instructions(c):
+            if ins.starts_line is not None:
+                line = ins.starts_line if not isinstance(ins.starts_line, bool) else ins.positions.lineno
+            hit = False
+            if ins.opname in ("STORE_GLOBAL", "DELETE_GLOBAL"):
+                hit = True
+            elif ins.opname in ("LOAD_GLOBAL", "LOAD_NAME") and g is not None:
+                hit = shared_value(g, ins.argval)
+                v = g.get(ins.argval)
+                prev_mod = v if isinstance(v, types.ModuleType) and v.__name__.startswith("selfies") else None
+                if hit:
+                    prev_mod = None
+                if line is not None and hit:
+                    pts.add((c, line))
+                continue
+            elif ins.opname in ("LOAD_ATTR", "STORE_ATTR", "LOAD_METHOD"):
+                if ins.argval in class_attrs:
+                    hit = True
+                elif prev_mod is not None and shared_value(vars(prev_mod), ins.argval):
+                    hit = True
+            prev_mod = None
+            if hit and line is not None:
+                pts.add((c, line))
+    return pts
 
 
 def install(granularity="line"):
@@ -140,7 +239,8 @@ def install(granularity="line"):
     if _INSTALLED[0] is not None:
         uninstall()
     mon.use_tool_id(TOOL, "verif-sched")
-    ev = mon.events.LINE if granularity == "line" else mon.events.INSTRUCTION
+    ev = mon.events.INSTRUCTION if granularity == "instruction" else mon.events.LINE
+    _POINTS[0] = shared_points() if granularity == "shared" else None
     for c in selfies_codes():
         mon.set_local_events(TOOL, c, ev)
     mon.register_callback(TOOL, ev, _cb)
@@ -154,6 +254,7 @@ def uninstall():
         mon.set_local_events(TOOL, c, 0)
     mon.free_tool_id(TOOL)
     _INSTALLED[0] = None
+    _POINTS[0] = None
 
 
 def _hang(self, ths, tid, trace):
